@@ -8,9 +8,9 @@
   x of multiplicative order size-1); `Obligations/C04.lean` discharges it for the parameters
   regenerated from /repo on every run.
 -/
-import Gzx.Proofs.GF
+import Gzx.Proofs.RS
 namespace Gzx.Properties.C04
-open Gzx Gzx.GF Gzx.Ref.GF Gzx.Proofs.GF
+open Gzx Gzx.GF Gzx.RS Gzx.Ref.GF Gzx.Proofs.GF Gzx.Proofs.Poly Gzx.Proofs.RS
 
 /-! ## (a) field arithmetic = polynomial arithmetic modulo the primitive polynomial -/
 
@@ -75,5 +75,102 @@ example : pmod 0x11D (clmul 2 128) = 29 := by decide
 example : ¬ ParamsOK 0x101 256 := by decide +kernel
 /-- an irreducible but non-primitive polynomial (x^8+x^4+x^3+x+1, AES) is rejected: x has order 51 -/
 example : ¬ ParamsOK 0x11B 256 := by decide +kernel
+
+
+/-! ## (b), (c) Reed-Solomon encoder, clean path of the decoder
+
+Notation of the statements, all over the *reference* arithmetic (`gmul prim a b = pmod prim (clmul a b)`):
+`evalH prim a w` is the Horner value at `a` of the polynomial whose coefficients are the word `w`
+(first symbol = highest power), `alpha F j = pmod prim (2^j)` is `x^j mod prim`.
+The `i`-th syndrome of a word is `evalH F.prim (alpha F (i + F.base)) w`.
+Hypothesis `r + F.base ≤ F.size` is implied by the property's `k + r ≤ |F| - 1`, `k ≥ 1`
+for the generator bases 0 and 1 the library uses (`shape_ok`). -/
+
+/-- `α^j = x^j mod prim` -/
+def alpha (F : GF) (j : Nat) : Nat := pmod F.prim (2 ^ j)
+
+/-- all symbols of the word are field elements -/
+def InField (F : GF) (w : List Nat) : Prop := ∀ x, x ∈ w → x < F.size
+
+/-- the word has zero syndromes `S_0 … S_{r-1}` (reference arithmetic) -/
+def ZeroSyndromes (F : GF) (w : List Nat) (r : Nat) : Prop :=
+  ∀ i, i < r → evalH F.prim (alpha F (i + F.base)) w = 0
+
+theorem alpha_eq_pw (F : GF) (h : FieldOK F) (j : Nat) : alpha F j = pw F.prim F.size j :=
+  (pw_eq_pmod h.2 j).symm
+
+/-- the property's shape condition implies the hypothesis used below -/
+theorem shape_ok (F : GF) (k r : Nat) (hk : 1 ≤ k) (hn : k + r ≤ F.size - 1) (hb : F.base ≤ 1) :
+    r + F.base ≤ F.size := by omega
+
+/-- Clause "encoding leaves the data symbols unchanged and appends parity": for every data length
+    `k ≥ 1`, every parity count `r ≥ 1` the field supports and whatever is in the `r` tail slots,
+    `Encode` succeeds (no error, no panic, no fuel exhaustion), returns the data symbols unchanged
+    followed by exactly `r` parity symbols, all of them field elements. -/
+theorem rs_encode_systematic (F : GF) (h : FieldOK F) (data tail : List Nat) (r : Nat)
+    (hk : data ≠ []) (hr : 0 < r) (htl : tail.length = r) (hd : InField F data) (hb : r + F.base ≤ F.size) :
+    ∃ par, encodeArr F (data ++ tail) r = .ok (data ++ par) ∧ par.length = r ∧ InField F par := by
+  obtain ⟨par, h1, h2, h3, _⟩ := encodeArr_spec h data tail r hk hr htl hd hb
+  exact ⟨par, h1, h2, h3⟩
+
+/-- the same for the API the other models import: `encode` returns the `r` parity symbols and
+    `encodeWord = data ++ encode` -/
+theorem rs_encode_api (F : GF) (h : FieldOK F) (data : List Nat) (r : Nat)
+    (hk : data ≠ []) (hr : 0 < r) (hd : InField F data) (hb : r + F.base ≤ F.size) :
+    ∃ par, encode F data r = .ok par ∧ encodeWord F data r = .ok (data ++ par) ∧ par.length = r ∧
+      InField F par := by
+  obtain ⟨par, h1, h2, h3, _⟩ := encodeArr_spec h data (List.replicate r 0) r hk hr (by simp) hd hb
+  refine ⟨par, ?_, h1, h2, h3⟩
+  unfold encode encodeWord
+  rw [h1]
+  simp [bind, Except.bind]
+
+/-- Clause "… such that the whole word has zero syndromes": every `α^(i+base)`, `i < r`, is a root
+    of the encoded word. -/
+theorem rs_encode_zero_syndromes (F : GF) (h : FieldOK F) (data : List Nat) (r : Nat)
+    (hk : data ≠ []) (hr : 0 < r) (hd : InField F data) (hb : r + F.base ≤ F.size) :
+    ∃ w, encodeWord F data r = .ok w ∧ w.length = data.length + r ∧ InField F w ∧ ZeroSyndromes F w r := by
+  obtain ⟨par, h1, h2, h3, h4⟩ := encodeArr_spec h data (List.replicate r 0) r hk hr (by simp) hd hb
+  refine ⟨data ++ par, h1, by simp [h2], InR.append hd h3, ?_⟩
+  intro i hi
+  rw [alpha_eq_pw F h]
+  exact h4 i hi
+
+/-- the model decoder computes exactly these syndromes (so `ZeroSyndromes` is what `Decode` tests) -/
+theorem rs_syndromes_eq (F : GF) (h : FieldOK F) (w : List Nat) (hne : w ≠ []) (hw : InField F w) (r : Nat)
+    (hb : r + F.base ≤ F.size) :
+    syndromes F (normalize w) r 0 =
+      .ok ((List.range' 0 r).map (fun i => evalH F.prim (alpha F (i + F.base)) w)) := by
+  rw [syndromes_spec h _ (normalize_ne_nil w) (InR_normalize (size_pos h) w hw) r 0 (by omega)]
+  congr 1
+  apply List.map_congr_left
+  intro i _
+  rw [evalH_normalize h.2, alpha_eq_pw F h]
+
+/-- Clause "an uncorrupted word passes through unchanged": a word with zero syndromes is returned as is. -/
+theorem rs_decode_clean (F : GF) (h : FieldOK F) (w : List Nat) (r : Nat) (hne : w ≠ []) (hw : InField F w)
+    (hb : r + F.base ≤ F.size) (hz : ZeroSyndromes F w r) :
+    decode F w r = .ok w := by
+  unfold decode
+  rw [decodeD_clean h w hne hw r hb (fun i hi => by rw [← alpha_eq_pw F h]; exact hz i hi)]
+
+/-- hence: decoding an encoded word returns it unchanged -/
+theorem rs_decode_encode (F : GF) (h : FieldOK F) (data : List Nat) (r : Nat)
+    (hk : data ≠ []) (hr : 0 < r) (hd : InField F data) (hb : r + F.base ≤ F.size) :
+    ∃ w, encodeWord F data r = .ok w ∧ decode F w r = .ok w := by
+  obtain ⟨w, h1, h2, h3, h4⟩ := rs_encode_zero_syndromes F h data r hk hr hd hb
+  refine ⟨w, h1, rs_decode_clean F h w r ?_ h3 hb h4⟩
+  intro hw
+  rw [hw] at h2
+  have := List.length_pos_iff.2 hk
+  simp at h2; omega
+
+/-! non-vacuity -/
+example : encodeWord qrCode256 [32, 91, 11, 120, 209, 114, 220, 77, 67, 64, 236, 17, 236, 17, 236, 17] 10 =
+    .ok [32, 91, 11, 120, 209, 114, 220, 77, 67, 64, 236, 17, 236, 17, 236, 17,
+         196, 35, 39, 119, 235, 215, 231, 226, 93, 23] := by decide +kernel
+example : InField aztecParam [1, 2, 3] ∧ 5 + aztecParam.base ≤ aztecParam.size := by
+  refine ⟨?_, by decide⟩
+  intro x hx; simp at hx; rcases hx with rfl | rfl | rfl <;> decide
 
 end Gzx.Properties.C04
